@@ -506,8 +506,107 @@ fn wait_outbuf(t: Option<std::thread::ThreadId>, bytes: usize, timeout: Duration
     }
 }
 
+/// The two closes cross: the client's Connection.Close has been written (the caller is
+/// waiting for CloseOk) when the server's own Connection.Close arrives instead - the
+/// server had sent it before it saw ours. The server did close the connection, and
+/// Connection::close has to say so.
+fn crossing_case(r: &mut Rng, res: &mut CaseResult) {
+    let mut reflex = Reflex::default();
+    reflex.ignore_conn_close = true;
+    let (conn, h) = session::open_default(reflex);
+    let mut conn = match conn {
+        Ok(c) => c,
+        Err(e) => {
+            res.inconclusive(format!("handshake: {}", ek(&e)));
+            return;
+        }
+    };
+    let mut actors: Vec<(Actor, usize)> = Vec::new();
+    for i in 0..r.usize(0, 3) {
+        match conn.open_channel(None) {
+            Ok(c) => {
+                let a = Actor::spawn(c, &format!("x{}", i));
+                let mut ncons = 0;
+                for _ in 0..r.usize(0, 2) {
+                    if let Some(Rep::Consumed(..)) = a.call(Cmd::Consume { observed: true }) {
+                        ncons += 1;
+                    }
+                }
+                actors.push((a, ncons));
+            }
+            Err(e) => {
+                res.inconclusive(format!("open_channel: {}", ek(&e)));
+                return;
+            }
+        }
+    }
+    let (code, text) = (r.next() as u16, wire::rand_shortstr(r));
+    let want = format!("ServerClosedConnection({},{:?})", code, text);
+    let t = run::spawn("close", move || conn.close());
+    if !h.wait(W, |st| st.reflex.got_conn_close) {
+        res.violate("close_hangs", "Connection.Close never reached the server".to_string());
+        return;
+    }
+    let wire_at_close = h.out_len();
+    if r.bool() {
+        std::thread::sleep(Duration::from_micros(r.range(0, 2000)));
+    }
+    h.inject(conn_close_frame(code, &text));
+    match t.join(W) {
+        J::Done(Err(e)) if ek(&e) == want => {}
+        J::Done(other) => res.violate("close_result", format!("the server's Connection.Close ({}, {:?}) arrived while the client was waiting for CloseOk: Connection::close() = {}, want Err({})", code, text, session::rk(&other), want)),
+        _ => {
+            res.violate("close_hangs", "Connection::close did not return within 20s after the server's own Close had arrived".to_string());
+            return;
+        }
+    }
+    res.obs("crossing_connection_closes", 1);
+    // every consumer gets exactly one terminal message naming a connection close
+    for (a, ncons) in &actors {
+        match a.call(Cmd::Rpc) {
+            Some(Rep::Done(Err(e))) if e == want || e == "ClientClosedConnection" => {}
+            other => res.violate("channel_not_failed", format!("channel {} after crossing closes: next call = {:?}", a.id, other)),
+        }
+        if let Some(Rep::Drained { consumers, .. }) = a.drain() {
+            for (_, msgs) in consumers.iter().take(*ncons) {
+                let terms: Vec<&CMsg> = msgs.iter().filter(|m| !matches!(m, CMsg::Delivery(..) | CMsg::Disconnected)).collect();
+                let ok = terms.len() == 1 && (terms[0] == &CMsg::ServerClosedConnection(want.clone()) || terms[0] == &CMsg::ClientClosedConnection) && msgs.last() == Some(&CMsg::Disconnected);
+                if !ok {
+                    res.violate("consumer_terminal", format!("channel {} after crossing closes: consumer saw {:?}", a.id, msgs));
+                }
+                res.obs("consumers_checked", 1);
+            }
+        }
+        a.send(Cmd::Stop);
+    }
+    // nothing but (at most) a CloseOk may follow the client's Close on the wire
+    let tail = h.out_bytes()[wire_at_close..].to_vec();
+    if !(tail.is_empty() || tail == conn_close_ok_frame()) {
+        res.violate("written_after_close", format!("{} bytes written after the client's Connection.Close that are not a CloseOk", tail.len()));
+    }
+    for p in run::io_panics(&run::take_panics()) {
+        res.violate("io_thread_panic", format!("{} at {}", p.msg, p.loc));
+    }
+    res.sig = crate::rng::fnv_str(&format!("crossing{}{:?}", actors.len(), actors.iter().map(|a| a.1).collect::<Vec<_>>()));
+    res.sample = Some(json!({"scenario": "server Connection.Close arrives while the client waits for CloseOk", "channels": actors.len()}));
+}
+
 pub fn run(rc: &mut RunCtx) {
     let seed = rc.seed;
+    for i in 0..rc.n(48, 800) {
+        let id = format!("crossing:{}", i);
+        if !rc.mine(&id) {
+            continue;
+        }
+        rc.begin(&id);
+        let mut res = CaseResult::new(id);
+        let mut r = Rng::for_case(seed, 8, 6_000_000 + i);
+        crossing_case(&mut r, &mut res);
+        if i % 16 != 0 && !res.is_violation() {
+            res.sample = None;
+        }
+        rc.end(res);
+    }
     let n = rc.n(1500, 20000);
     for i in 0..n {
         let id = format!("close:{}", i);
